@@ -246,6 +246,9 @@ static void hist_case(Case& cs, const Profile& pf) {
   const bool scripted = pf.enum_mode || pf.align_mode;
   if (!scripted) { pools = gen::make_pools(c); tc = gen::gen_timectx(c); }
   ro.pres = scripted ? 4 : pf.pres_fixed ? pf.pres_fixed : (unsigned)c.pick<int>({4, 1, 7, 2, 6, 8});
+  // C04: mostly well-filled records (a hint only matters for a field that has a value), but also sparse ones: whether a record is stored
+  // at all can hinge on a single enabled field
+  if (!scripted && std::string(pf.name) == "c04") ro.pres = (unsigned)c.pick<int>({7, 7, 7, 3, 1, 5});
   ro.big = pf.big_strings ? (pf.ops_per_size >= 10 ? 70000 : 5000) : 300;
   gen::BpOpts bo;
   bo.full_hint_modes = pf.hint_modes;
